@@ -32,15 +32,15 @@ def initialValue (strings : List Str) (masked : Str) : Except RErr Str :=
   runSteps Generated.C02.restoreNbsp Generated.C02.restoreDoubleBs strings Generated.C02.initialSteps masked
 
 /-- `Show.decOne` with the initial value computed by `initialValue` -/
-def decOne (strings : List Str) (dec0 : Str) : Except RErr VarShow :=
+def decOne (strings : List Str) (dec0 : Str) (eqJoin : Bool := false) : Except RErr VarShow :=
   let dec := removeSpaces dec0
   match parenSplit '=' dec with
-  | nm :: v :: _ =>
-    match v with
-    | [] => .error .emptyInit
-    | c :: rest =>
-      let points := c == '>'
-      let ini := if points then rest else v
+  | nm :: v :: more =>
+    match Show.initParts eqJoin v more with
+    | .error e => .error e
+    | .ok value =>
+      let points := value.head? == some '>'
+      let ini := if points then value.drop 1 else value
       let nd := splitNameDim nm
       if ini.isEmpty then .ok ⟨nd.1, nd.2, points, some []⟩
       else
@@ -51,22 +51,23 @@ def decOne (strings : List Str) (dec0 : Str) : Except RErr VarShow :=
     let nd := splitNameDim (strip dec)
     .ok ⟨nd.1, nd.2, false, none⟩
 
-def decAll (strings : List Str) : List Str → Except RErr (List VarShow)
+def decAll (strings : List Str) (ds : List Str) (eqJoin : Bool := false) : Except RErr (List VarShow) :=
+  match ds with
   | [] => .ok []
   | d :: ds =>
-    match decOne strings d with
+    match decOne strings d eqJoin with
     | .error e => .error e
     | .ok v =>
-      match decAll strings ds with
+      match decAll strings ds eqJoin with
       | .error e => .error e
       | .ok vs => .ok (v :: vs)
 
 /-- the declared entities of one (unmasked) declaration statement with what FORD records as
     their initial values -/
-def declVars (line : Str) : Except RErr (List VarShow) :=
+def declVars (line : Str) (eqJoin : Bool := false) : Except RErr (List VarShow) :=
   let segs := cutLits line
   match afterColons (segMasked segs 0) with
   | none => .ok []
-  | some d => decAll (segStrings segs) (parenSplit ',' (strip d))
+  | some d => decAll (segStrings segs) (parenSplit ',' (strip d)) eqJoin
 
 end Ford.InitialValue
